@@ -156,6 +156,12 @@ func (n *DestinationAckerNode) worker(
 					handleError(msg, cerrors.Errorf("error while fetching acks: %w", err))
 					return
 				}
+				if len(acks) == 0 {
+					// a response without any ack confirms nothing, the message
+					// is still unacknowledged
+					handleError(msg, cerrors.New("received a response without acks from the destination"))
+					return
+				}
 			}
 
 			ack := acks[0]
